@@ -16,7 +16,8 @@ pairs).  Observables, as the property names them:
   (e) filter list OBJECTS (entry "nest"): nested mixed structures built through every constructor call shape
       (K(*parts), K([parts]), K((parts)), K(generator), a lone filter list of either kind as the only part, user
       subclasses) and through the `list` methods (+, *, reflected *, *=, append, extend, +=, slicing): classes and parts
-      of the result, len, output, numpoly/denpoly (as coded and with the repair of D22), is_linear, hash, and the
+      of the result, len, output, numpoly/denpoly (the code as repaired for D22; the old shape only as a regression
+      model that names the defect), is_linear, hash, and the
       float-only freq_response against the denoted rational function on the unit circle;
   (f) == / != matrices over pools of objects of every sort (entry "eqm"): filter lists of both kinds and of user
       subclasses, plain lists, tuples, ZFilters, type-casted filters, LinearFilter objects, numbers, functions, in
@@ -24,7 +25,13 @@ pairs).  Observables, as the property names them:
   (g) operand kinds / spellings of the dunders: scalars written as int / float / Fraction / bool on either side,
       exponents written as int / bool / float / Fraction / complex, a LinearFilter that is not a ZFilter as right
       operand, a ZFilter handed to a reflected dunder, ZFilter(filter) / ZFilter(filter, filter) /
-      ZFilter(filter, number) type casts; linearize() on fractional delays (entry "frac").
+      ZFilter(filter, number) type casts; linearize() on fractional delays (entry "frac");
+  (h) histories of ONE mutable filter list (entry "hist"): reads of numpoly/denpoly, numlist/denlist and calls
+      interleaved with obj[i] = g (also negative i), obj[:] = [...], append, extend — the replacement mostly a filter
+      with the SAME powers and other coefficients (equal LinearFilter.__hash__): every read must be that of the CURRENT
+      parts (theorem hist_reads_current; regression model of a sum cached under hash(tuple(self)));
+  (i) f(g) against the closed form for monomials gain*z**-delay with non-unit gains (theorem subst_monomial) and
+      against exact evaluation f(g)(z0) == f(g(z0)) at rational points, for monomial and general g (entry "substpt").
 """
 import json
 import operator
@@ -48,7 +55,11 @@ RULE = ("random expression trees (depth<=3 quick / <=4 thorough) over + - * / **
         "callables, filter lists), constructor shapes star/list/tuple/generator, list methods add/mul/rmul/imul/append/"
         "extend/iadd/slice incl. failing ones (tuple / ZFilter / number operands); ==/!= matrices over pools of 6..10 "
         "objects drawn from 41 templates; scalars spelled int/float/Fraction/bool, exponents spelled "
-        "int/bool/float/Fraction/complex, foreign-domain operands, type casts; fractional (dyadic) delays for linearize")
+        "int/bool/float/Fraction/complex, foreign-domain operands, type casts; fractional (dyadic) delays for linearize; "
+        "histories of one filter list (1..3 parts, 1..3 in-place mutations set/setall/append/extend, 75% of the replacements "
+        "with the same powers and other coefficients, a read before and after every mutation); f(g) with g = gain*z**-d "
+        "(gains 2, 1/2, 1/3, -2, 3, -1/2, 3/2, +-1; d in -2..3), monomial dictionaries and general small g, evaluated at "
+        "3 of 7 rational points")
 TRUSTED = [
     "hand-written Lean model ALV/Model/C05.lean of ZFilter / CascadeFilter / ParallelFilter arithmetic on top of "
     "the C07 Poly model and the C04 filter loop (modelled, not verified: Python's Fraction arithmetic as a field, "
@@ -68,16 +79,16 @@ ASSUMPTIONS = [
     "exact regime: Fraction coefficients, Poly zero=Fraction(0) on the leaves, Fraction signals, zero=Fraction(0); "
     "where the impl itself injects binary floats (Fraction coefficients formatted as 'p/q' into the exec'd filter "
     "loop, int ** negative int) results are compared within 1e-9 relative to the largest sample",
-    "constant coefficients and integer powers only (Stream coefficients: C06; linearize is modelled and observed "
-    "on integer delays only, where it must be the identity; its float interpolation of fractional delays is "
-    "outside the model)",
+    "constant coefficients (Stream coefficients: C06); fractional powers only in linearize (dyadic, so that the float "
+    "weights are exact)",
     "signal laws (law vectors) are compared in the exact regime only (integer coefficients keep the impl's exec'd "
     "loop exact on Fraction samples); outputs of single trees in the float regime are compared within "
     "1e-10 * (sum |impulse response of 1/den|) relative to the largest sample",
     "signal laws are stated for causal filters; a non-causal composite raises ValueError in the impl and in the model",
     "outside the object model: coefficient lists / dicts as parts of a filter list, callables with memory, Stream "
     "coefficients, complex scalars (the model's instance in the driver is Rat), <, <=, >, >= on filter lists, poles / "
-    "zeros / plot (numpy), non-dyadic fractional delays (float rounding)",
+    "zeros / plot (numpy), non-dyadic fractional delays (float rounding), IndexError of obj[i] = g out of range, "
+    "del / pop / insert / sort on a filter list, freq_response within a history (float)",
 ]
 MANIFEST = {
     "technique": "Lean 4 proof (ZFilter model interpreted into the fraction field of Mathlib's Laurent polynomial "
@@ -87,10 +98,10 @@ MANIFEST = {
                  "inductive FL/FLs with joint induction: call = composition/sum, numpoly/denpoly = one causal filter "
                  "denoting the product/sum at any depth), ==/!= matrices over mixed pools, operand spellings and "
                  "fractional-delay linearisation, in the exact Fraction regime",
-    "note": "60 theorems, no pending statement; D2 (__ne__ is `num != and den !=`) and D12 (ParallelFilter.denpoly "
+    "note": "78 theorems, no pending statement; D2 (__ne__ is `num != and den !=`) and D12 (ParallelFilter.denpoly "
             "is the product while numpoly comes from the shortcut sum) are repaired in /repo; D22 (ParallelFilter.numpoly/"
             "denpoly run reduce(operator.add, self) on the raw elements: filter lists are concatenated, numbers stay "
-            "numbers) is recorded as known with proposed_fixes/D22-parallel-polys-of-lists.diff; each is stated in "
+            "numbers) is repaired in /repo (04c3c25) and the model follows the repaired code; each is stated in "
             "Lean as theorems about the repaired shape plus a refutation of the shape as coded; filter lists are "
             "modelled as objects (nested_call, nested_structure_denotes, constructor_rule, concat_denotes, "
             "obj_eq_ne_exclusive, obj_eq_sound, obj_eq_hash) and tied through constructor call shapes, list methods "
@@ -602,6 +613,8 @@ def _hist_leaf(rng, pool):
     den = [[0, enc(rng.choice(_units(pool)))]] + [[k, enc(rng.choice([c for c in pool if c != 0]))]
                                                   for k in sorted(rng.sample([1, 2, 3], rng.choice([0, 1, 1, 2])))]
     num = [[k, enc(rng.choice([c for c in pool if c != 0]))] for k in sorted(rng.sample([0, 1, 2, 3], rng.choice([1, 2, 2, 3])))]
+    if rng.random() < 0.08:
+        num = [[-1, enc(rng.choice([c for c in pool if c != 0]))]] + num       # non-causal: numlist / call raise ValueError
     return ["zf", ["f", num, den]]
 
 
